@@ -35,6 +35,10 @@
      "idle": no request in flight;  "req": the request in flight never arrives;  "rep": it arrives,
      the directory acts on it, the reply is lost.  The directory does NOT notice that a peer is gone
      (Dev_NoLease): the entries of a dead or cut-off server stay for ever.
+   a connection a client session has just made is lost before the session has put it into its pool   ConnDrop(c)
+     (or the server stops in that window): session.go l.103-106 inserts the client and adds the closer to an end
+     point that is already closed - net.endPoint.MakeHandler never calls it (Dev_StaleKept): the address stays
+     in the pool for the life of the session, every later Proxy for a service behind it fails.
    client session c, bus/session/session.go Proxy(name, 1)
      info := s.findServiceName(name)                  l.138  the session's list = the directory's  PStart(c, n)
                                                              list when the session is at rest
@@ -55,7 +59,9 @@
      StagedOwned          a staged entry belongs to a NewService in progress        Dev_NoCleanup
      NoOrphan             an activated object is served or has been terminated      Dev_NoCleanup
      TerminatedInvisible  a service whose Terminate returned is not listed          Dev_NoLease
-   With all three OFF (MCFederation_ideal.cfg) the four hold: the demands can be met.
+     NoStalePool          a session's pool holds no dead connection                 Dev_StaleKept
+     StaleOnlyDown        ... at least none to a server that is still running       Dev_StaleKept
+   With all four OFF (MCFederation_ideal.cfg) the four hold: the demands can be met.
    Renderings that are NOT the code and must break the statement (vacuity guards):
      Dev_StagingUnchecked (RegisterService checks the ready names only) -> UniqueNames
      Dev_IdReuse (the next identifier is 1 + the largest one in use)    -> IdsIncreasing
@@ -64,8 +70,8 @@
      Dev_EnableErrorIgnored (NewService returns the service although ServiceReady failed) -> LiveVisible   *)
 EXTENDS Naturals, Sequences, FiniteSets, TLC
 
-CONSTANTS Srv, Names, Clients, MaxAtt, MaxCuts, MaxProxies,
-          Dev_NoCleanup, Dev_RouterFirst, Dev_NoLease,
+CONSTANTS Srv, Names, Clients, MaxAtt, MaxCuts, MaxProxies, MaxDrops,
+          Dev_NoCleanup, Dev_RouterFirst, Dev_NoLease, Dev_StaleKept,
           Dev_StagingUnchecked, Dev_IdReuse, Dev_LookupStaged, Dev_RemovedForStaged, Dev_EnableErrorIgnored
 
 Att == 1..MaxAtt            \* the NewService calls of a behaviour, in the order they are made: attempt k adds object k
@@ -81,11 +87,11 @@ VARIABLES staging, services, lastID,          \* the directory: sets of [id, nam
           natt,
           cl,                                 \* client -> [pc: "idle" | "found" | "dialed", id, srv, dead]
           conn, stale,                        \* client -> servers it holds a pooled connection to: alive / dead and never removed
-          ncut, nprox,
+          ncut, nprox, ndrop,
           out                                 \* outcome of the last command [e: "ok" | "err" | "pend" | "-", w: why, v]
 dvars == <<staging, services, readyIds, unregIds, evs, reqs>>
 vars == <<staging, services, lastID, assigned, readyIds, unregIds, evs, reqs, up, link, routed, op, att, activated, term, natt,
-          cl, conn, stale, ncut, nprox, out>>
+          cl, conn, stale, ncut, nprox, ndrop, out>>
 
 Out(e, w, v) == [e |-> e, w |-> w, v |-> v]
 Idle == [pc |-> "idle", k |-> 0]
@@ -102,7 +108,7 @@ Init == /\ staging = {} /\ services = {} /\ lastID = 1
         /\ routed = [s \in Srv |-> {}] /\ op = [s \in Srv |-> Idle]
         /\ att = [k \in Att |-> NoAtt] /\ activated = [k \in Att |-> FALSE] /\ term = [k \in Att |-> 0] /\ natt = 0
         /\ cl = [c \in Clients |-> NoCl] /\ conn = [c \in Clients |-> {}] /\ stale = [c \in Clients |-> {}]
-        /\ ncut = 0 /\ nprox = 0 /\ out = Out("-", "", 0)
+        /\ ncut = 0 /\ nprox = 0 /\ ndrop = 0 /\ out = Out("-", "", 0)
 
 -----------------------------------------------------------------------------
 (* the directory (bus/directory/directory.go) as functions of its state: several of its methods may run in one step *)
@@ -165,7 +171,7 @@ NsStart(s, n) ==
                /\ att' = [att EXCEPT ![k] = [srv |-> s, name |-> n, id |-> id, st |-> "act"]]
                /\ op' = [op EXCEPT ![s] = [pc |-> "act", k |-> k]]
                /\ out' = Out("ok", "", id)
-  /\ UNCHANGED <<services, readyIds, unregIds, evs, up, link, routed, activated, term, cl, conn, stale, ncut, nprox>>
+  /\ UNCHANGED <<services, readyIds, unregIds, evs, up, link, routed, activated, term, cl, conn, stale, ncut, nprox, ndrop>>
 
 (* Activate returns; Router.Add; the ServiceReady request leaves *)
 NsAct(s, ok) ==
@@ -182,7 +188,7 @@ NsAct(s, ok) ==
                        /\ op' = [op EXCEPT ![s] = [pc |-> "ena", k |-> k]]
                        /\ out' = Out("pend", "", 0)
                        /\ UNCHANGED <<dvars, term>>
-  /\ UNCHANGED <<lastID, assigned, up, link, natt, cl, conn, stale, ncut, nprox>>
+  /\ UNCHANGED <<lastID, assigned, up, link, natt, cl, conn, stale, ncut, nprox, ndrop>>
 
 (* the request in flight reaches the directory, the reply comes back, the operation ends *)
 Deliver(s) ==
@@ -203,7 +209,7 @@ Deliver(s) ==
                /\ op' = [op EXCEPT ![s] = Idle]
                /\ out' = Out("ok", "", 0)
                /\ UNCHANGED term
-  /\ UNCHANGED <<lastID, assigned, up, link, activated, natt, cl, conn, stale, ncut, nprox>>
+  /\ UNCHANGED <<lastID, assigned, up, link, activated, natt, cl, conn, stale, ncut, nprox, ndrop>>
 
 (* the connection between server s and the directory is lost *)
 Cut(s, mode) ==
@@ -233,7 +239,7 @@ Cut(s, mode) ==
                /\ op' = [op EXCEPT ![s] = Idle]
                /\ out' = Out("ok", "", 0)
                /\ UNCHANGED term
-  /\ UNCHANGED <<lastID, assigned, up, activated, natt, cl, conn, stale, nprox>>
+  /\ UNCHANGED <<lastID, assigned, up, activated, natt, cl, conn, stale, nprox, ndrop>>
 
 (* Service.Terminate of the service attempt k returned *)
 SvcTerm(k) ==
@@ -250,7 +256,7 @@ SvcTerm(k) ==
                /\ att' = [att EXCEPT ![k].st = "gone"]
                /\ out' = Out("ok", "", 0)
                /\ UNCHANGED op
-  /\ UNCHANGED <<dvars, lastID, assigned, up, link, activated, natt, cl, conn, stale, ncut, nprox>>
+  /\ UNCHANGED <<dvars, lastID, assigned, up, link, activated, natt, cl, conn, stale, ncut, nprox, ndrop>>
 
 (* Server.Terminate (no operation of the server in progress: ServerLife.tla has those) *)
 SrvTerm(s) ==
@@ -265,7 +271,7 @@ SrvTerm(s) ==
   /\ conn' = [c \in Clients |-> conn[c] \ {s}]                          \* closeAll; the sessions' closers forget the connection
   /\ cl' = [c \in Clients |-> IF cl[c].pc = "dialed" /\ cl[c].srv = s THEN [cl[c] EXCEPT !.dead = TRUE] ELSE cl[c]]
   /\ out' = Out("ok", "", 0)
-  /\ UNCHANGED <<lastID, assigned, link, op, activated, natt, stale, ncut, nprox>>
+  /\ UNCHANGED <<lastID, assigned, link, op, activated, natt, stale, ncut, nprox, ndrop>>
 
 -----------------------------------------------------------------------------
 (* a client session *)
@@ -281,7 +287,7 @@ PStart(c, n) ==
             /\ cl' = [cl EXCEPT ![c] = [pc |-> "found", id |-> e.id, srv |-> e.srv, dead |-> FALSE]]
             /\ out' = Out("pend", "", e.id)
        ELSE /\ out' = Out("err", "notfound", 0) /\ UNCHANGED cl
-  /\ UNCHANGED <<dvars, lastID, assigned, up, link, routed, op, att, activated, term, natt, conn, stale, ncut>>
+  /\ UNCHANGED <<dvars, lastID, assigned, up, link, routed, op, att, activated, term, natt, conn, stale, ncut, ndrop>>
 
 PDial(c) ==
   /\ cl[c].pc = "found"
@@ -290,18 +296,26 @@ PDial(c) ==
        [] s \in conn[c]  -> /\ out' = MetaOut(s, cl[c].id) /\ cl' = [cl EXCEPT ![c] = NoCl]          \* pool hit
        [] s \notin (stale[c] \cup conn[c]) /\ up[s]  -> /\ out' = Out("pend", "", 0) /\ cl' = [cl EXCEPT ![c].pc = "dialed"]
        [] OTHER          -> /\ out' = Out("err", "dialerr", 0) /\ cl' = [cl EXCEPT ![c] = NoCl]
-  /\ UNCHANGED <<dvars, lastID, assigned, up, link, routed, op, att, activated, term, natt, conn, stale, ncut, nprox>>
+  /\ UNCHANGED <<dvars, lastID, assigned, up, link, routed, op, att, activated, term, natt, conn, stale, ncut, nprox, ndrop>>
 
 PMeta(c) ==
   /\ cl[c].pc = "dialed"
   /\ LET s == cl[c].srv IN
      IF cl[c].dead
-       THEN /\ stale' = [stale EXCEPT ![c] = @ \cup {s}]      \* AddHandler on a closed end point: the closer never runs
-            /\ out' = Out("err", "callerr", 0) /\ UNCHANGED conn
+       THEN /\ stale' = IF Dev_StaleKept THEN [stale EXCEPT ![c] = @ \cup {s}] ELSE stale   \* AddHandler on a closed end point:
+            /\ out' = Out("err", "callerr", 0) /\ UNCHANGED conn                                \* the closer never runs
        ELSE /\ conn' = [conn EXCEPT ![c] = @ \cup {s}]
             /\ out' = MetaOut(s, cl[c].id) /\ UNCHANGED stale
   /\ cl' = [cl EXCEPT ![c] = NoCl]
-  /\ UNCHANGED <<dvars, lastID, assigned, up, link, routed, op, att, activated, term, natt, ncut, nprox>>
+  /\ UNCHANGED <<dvars, lastID, assigned, up, link, routed, op, att, activated, term, natt, ncut, nprox, ndrop>>
+
+(* the connection a client has just made is lost (the network, not the server) before the session has it in its pool *)
+ConnDrop(c) ==
+  /\ cl[c].pc = "dialed" /\ ~cl[c].dead /\ ndrop < MaxDrops
+  /\ ndrop' = ndrop + 1
+  /\ cl' = [cl EXCEPT ![c].dead = TRUE]
+  /\ out' = Out("-", "", 0)
+  /\ UNCHANGED <<dvars, lastID, assigned, up, link, routed, op, att, activated, term, natt, conn, stale, ncut, nprox>>
 
 (* what session.Proxy(n, 1) of a FRESH session does, in one go: "notfound" | "dialerr" | "nosvc" | the attempt that answers *)
 Reach(n) == IF ~\E e \in Visible : e.name = n THEN Out("err", "notfound", 0)
@@ -313,11 +327,11 @@ Next == \/ \E s \in Srv : \/ \E n \in Names : NsStart(s, n)
                           \/ \E m \in {"idle", "req", "rep"} : Cut(s, m)
         \/ \E k \in Att : SvcTerm(k)
         \/ \E c \in Clients : \/ \E n \in Names : PStart(c, n)
-                              \/ PDial(c) \/ PMeta(c)
+                              \/ PDial(c) \/ PMeta(c) \/ ConnDrop(c)
 Spec == Init /\ [][Next]_vars
 (* the exhaustive runs leave out what neither an action nor an invariant reads: the request history and the last outcome *)
 MCView == <<staging, services, lastID, assigned, readyIds, unregIds, evs, up, link, routed, op, att, activated, term, natt,
-            cl, conn, stale, ncut, nprox>>
+            cl, conn, stale, ncut, nprox, ndrop>>
 
 -----------------------------------------------------------------------------
 TypeOK == /\ \A e \in Entries : e.id \in 2..(MaxAtt + 1) /\ e.name \in Names /\ e.srv \in Srv
@@ -353,4 +367,6 @@ NoOrphan == \A k \in Att : (activated[k] /\ term[k] = 0) => att[k].st \in {"ena"
 TerminatedInvisible == \A k \in Att : att[k].st = "gone" => ~\E e \in Entries : e.id = att[k].id
 (* a pooled connection that is dead is never forgotten (C19's neighbourhood) *)
 NoStalePool == \A c \in Clients : stale[c] = {}
+(* ... at least not to a server that is still there: the session can never again reach what that server offers *)
+StaleOnlyDown == \A c \in Clients : \A s \in stale[c] : ~up[s]
 =============================================================================
